@@ -62,6 +62,14 @@ impl AddAssignSpecImpl<Wrapping<u32>> for Wrapping<u32> {
 impl core::ops::AddAssign<Wrapping<u32>> for Wrapping<u32> {
     fn add_assign(&mut self, o: Wrapping<u32>) { self.0 = self.0.wrapping_add(o.0); }
 }
+impl SubAssignSpecImpl<Wrapping<u32>> for Wrapping<u32> {
+    open spec fn obeys_sub_assign_spec() -> bool { true }
+    open spec fn sub_assign_req(&self, o: Wrapping<u32>) -> bool { true }
+    open spec fn sub_assign_spec(&self, o: Wrapping<u32>) -> &Wrapping<u32> { &Wrapping(self.0.wrapping_sub(o.0)) }
+}
+impl core::ops::SubAssign<Wrapping<u32>> for Wrapping<u32> {
+    fn sub_assign(&mut self, o: Wrapping<u32>) { self.0 = self.0.wrapping_sub(o.0); }
+}
 impl BitXorAssignSpecImpl<Wrapping<u32>> for Wrapping<u32> {
     open spec fn obeys_bitxor_assign_spec() -> bool { true }
     open spec fn bitxor_assign_req(&self, o: Wrapping<u32>) -> bool { true }
@@ -136,6 +144,14 @@ impl AddAssignSpecImpl<Wrapping<u64>> for Wrapping<u64> {
 }
 impl core::ops::AddAssign<Wrapping<u64>> for Wrapping<u64> {
     fn add_assign(&mut self, o: Wrapping<u64>) { self.0 = self.0.wrapping_add(o.0); }
+}
+impl SubAssignSpecImpl<Wrapping<u64>> for Wrapping<u64> {
+    open spec fn obeys_sub_assign_spec() -> bool { true }
+    open spec fn sub_assign_req(&self, o: Wrapping<u64>) -> bool { true }
+    open spec fn sub_assign_spec(&self, o: Wrapping<u64>) -> &Wrapping<u64> { &Wrapping(self.0.wrapping_sub(o.0)) }
+}
+impl core::ops::SubAssign<Wrapping<u64>> for Wrapping<u64> {
+    fn sub_assign(&mut self, o: Wrapping<u64>) { self.0 = self.0.wrapping_sub(o.0); }
 }
 impl BitXorAssignSpecImpl<Wrapping<u64>> for Wrapping<u64> {
     open spec fn obeys_bitxor_assign_spec() -> bool { true }
